@@ -27,7 +27,7 @@ ANCHORS = ['converters:TaggedUnionConverter.try_convert', 'converters:TaggedUnio
            'converters:DictConverter.try_convert', 'converters:SequenceConverter.try_convert',
            'converters:StructConverter.into_data', 'classes:PaneConverter.into_data', 'convert:into_data', 'convert:convert']
 MIN_COUNTERS = {'quick': {'calls_checked': 30000, 'rejected_inputs_checked': 8000, 'tagged_inputs_checked': 500,
-                          'trap_carriers_used': 3000, 'keyed_inputs_checked': 5000, 'array_layouts_checked': 300}}
+                          'trap_carriers_used': 3000, 'keyed_inputs_checked': 5000, 'array_layouts_checked': 300, 'partial_instance_calls': 1000}}
 
 TRAPLOG = []
 ARMED = set()
